@@ -683,7 +683,7 @@ func TestCheck(t *testing.T) {
 
 	runBatchHarness(r)
 
-	nActions := r.Pick(20, 400)
+	nActions := r.Pick(18, 400)
 	batchSizes := []int{1, 2, 3, 100}
 	outkit.ParallelFor(nActions*len(batchSizes), workers, func(unit int) {
 		ai := unit / len(batchSizes)
